@@ -48,6 +48,22 @@ def gen_tasks(tier, seed):
             cut = rng.randint(1, len(gens) - 1)
             part = [sum(gens[:cut]), sum(gens[cut:])]
             tasks.append({"kind": "genset", "numbers": sorted(nums), "total": sum(gens), "mult": 1, "wt": "int", "partition": [part]})
+    # several partition constraints (they can push the optimum above the number of input numbers) and inputs that the
+    # constructor shrinks (complement pairs x / total-x, the total itself, duplicates)
+    for nums, tot, parts in (([5], 10, [[1, 9], [2, 8]]), ([1, 4, 6, 9], 10, [[5, 5], [3, 7]]), ([3], 10, [[1, 9], [2, 8], [4, 6]]), ([2, 8, 10], 10, [[1, 9], [3, 7]])):
+        for wt in ("int", "float"):
+            tasks.append({"kind": "genset", "numbers": nums, "total": tot, "mult": 1, "wt": wt, "partition": parts})
+    for _ in range(6 if tier == "quick" else 60):
+        gens = [rng.randint(1, 4) for _ in range(rng.randint(3, 4))]
+        tot = sum(gens)
+        parts = []
+        for _p in range(rng.randint(2, 3)):
+            perm = rng.sample(gens, len(gens))
+            cut = rng.randint(1, len(gens) - 1)
+            parts.append([sum(perm[:cut]), sum(perm[cut:])])
+        x = sum(rng.sample(gens, rng.randint(1, 2)))
+        nums = sorted({x, tot - x} - {0}) if rng.random() < 0.7 else [x]
+        tasks.append({"kind": "genset", "numbers": nums, "total": tot, "mult": 1, "wt": "int", "partition": parts})
     m = 16 if tier == "quick" else 150
     for _ in range(m):
         u = list(range(rng.randint(1, 5)))
@@ -119,7 +135,9 @@ def _mgs(task, lowerbound=1):
 
 def _genset(task, res):
     res["functions"] = ["MinGenSet.__init__/_create_solver/solve/get_solution", "SolverWrapper.add_binary_continuous_product_constraint/add_integer_continuous_product_constraint"]
-    kmax = len(task["numbers"]) + 1
+    # size bound of the reference search: without partition constraints |numbers|+1 values always suffice; with them only the
+    # all-ones multiset (size = total) is always available -> search up to min(6, total) (stated bound)
+    kmax = len(task["numbers"]) + 1 if not task["partition"] else min(6, max(len(task["numbers"]) + 1, int(task["total"])))
     k_ref = None
     res["obligations"] += 1
     for k in range(1, kmax + 1):
